@@ -277,6 +277,8 @@ package sbom
 //@   props C11, C04, C08
 //@   requires validNL(nl)
 //@   assigns \nothing
+//@   ensures [indexEdges:nonNil] forall f string, t Edge_Type, a int :: (f in result) && (t in result[f]) && 0 <= a && a < len(result[f][t]) ==> result[f][t][a] != nil
+//@   invariant L0: forall f string, t Edge_Type, a int :: (f in index) && (t in index[f]) && 0 <= a && a < len(index[f][t]) ==> index[f][t][a] != nil
 //@   ensures [indexEdges:shape] result != nil && fresh(result) && (forall f string, t Edge_Type :: (f in result) && (t in result[f]) ==> len(result[f][t]) >= 1 && fresh(result[f][t]) && result[f][t][0] != nil && (result[f][t][0] in elems(nl.Edges)))
 //@   invariant L0: index != nil && fresh(index)
 //@   invariant L0: forall f string :: (f in index) ==> index[f] != nil && fresh(index[f])
@@ -311,7 +313,7 @@ package sbom
 //@   props C11, C15
 //@   assigns \nothing
 //@   requires validNL(nl)
-//@   ensures [C15:siblings:nil] id == "" ==> result == nil
+//@   ensures [C15:siblings:nil] (id == "") <==> (result == nil)
 //@   ensures [C15:siblings:shape] result != nil ==> fresh(result) && validNL(result) && closedEdges(result) && normalisedNL(result)
 //@   ensures [C15:siblings:root] result != nil && (id in fieldset(nl.Nodes, Id)) ==> len(result.RootElements) == 1 && result.RootElements[0] == id && (id in fieldset(result.Nodes, Id))
 //@   ensures [C15:siblings:absent] result != nil && !(id in fieldset(nl.Nodes, Id)) ==> len(result.Nodes) == 0 && len(result.RootElements) == 0 && len(result.Edges) == 0
@@ -380,13 +382,19 @@ package sbom
 //@   invariant L5: [C15:inv] !(nil in elems(nl2.Nodes))
 
 //@ func NodeList.indexConnectedNodes
-//@   props C11
+//@   props C11, C15
 //@   assigns \nothing
+//@   requires validNL(nl)
+//@   ensures [C15:connected:index] result != nil && fresh(result) && (forall k string :: (k in result) ==> result[k] != nil && result[k].Id == k && (result[k] in elems(nl.Nodes)))
 
 //@ func NodeList.connectedIndexRecursion
-//@   props C11
+//@   props C11, C15
 //@   requires boundaries != nil && connectedNodes != nil
+//@   requires [C15:pre] validNL(nl) && *connectedNodes != nil && (forall k string :: (k in (*connectedNodes)) ==> (*connectedNodes)[k] != nil && (*connectedNodes)[k].Id == k && ((*connectedNodes)[k] in elems(nl.Nodes)))
 //@   assigns connectedNodes.*, (*connectedNodes)[*]
+//@   ensures [C15:connected:index] *connectedNodes == old(*connectedNodes) && (forall k string :: (k in (*connectedNodes)) ==> (*connectedNodes)[k] != nil && (*connectedNodes)[k].Id == k && ((*connectedNodes)[k] in elems(nl.Nodes)))
+//@   invariant L0: [C15:inv] *connectedNodes == old(*connectedNodes) && (forall k string :: (k in (*connectedNodes)) ==> (*connectedNodes)[k] != nil && (*connectedNodes)[k].Id == k && ((*connectedNodes)[k] in elems(nl.Nodes)))
+//@   invariant L0: [C15:inv] siblings != nil && (forall a int :: 0 <= a && a < len(siblings.Nodes) ==> siblings.Nodes[a] != nil && (siblings.Nodes[a] in elems(nl.Nodes)))
 
 // ---------------------------------------------------------------------------
 // C01: mutually inverse enum tables (SPDX 2.3)
